@@ -194,7 +194,7 @@ theorem q_doReject (s : Sess) (m : InMsg) (r : Nat) (t : Option Nat) (b : Bool) 
 theorem q_sendLogout (s : Sess) : Q 0 s (sendLogout s) := q_sendInReplyTo s (mkOut "5" [])
 theorem q_initiateLogout (s : Sess) : Q 0 s (initiateLogout s) := q_sendLogout s
 theorem q_sendLogonInReplyTo (s : Sess) (r : Bool) : Q 0 s (sendLogonInReplyTo s r) := q_dropAndSend s (logonMsg s r)
-theorem q_sendLogonRe (s : Sess) (r : Bool) (m : InMsg) : Q 0 s (sendLogonRe s r m) := q_dropAndSend s ((logonMsg s r).inReplyTo m)
+theorem q_sendLogonRe (s : Sess) (r : Bool) (m : InMsg) : Q 0 s (sendLogonRe s r m) := q_dropAndSend s ((logonMsgRe s r m).inReplyTo m)
 
 /-- the one place where a ResendRequest is created -/
 theorem q_sendResendRequest (s : Sess) (b e : Int) : Q 1 s (sendResendRequest s b e).1 := by
@@ -498,9 +498,31 @@ theorem q_logonReply (s : Sess) (m : InMsg) (flag : Bool) : Q 0 s (logonReply s 
   unfold logonReply
   q_cases
 
-theorem q_logonFinish (s : Sess) (m : InMsg) : Q 0 s (logonFinish s m).1 := by
-  unfold logonFinish
+theorem q_nxEval (s : Sess) (m : InMsg) (ns : Int) : Q 0 s (nxEval s m ns).1 := by
+  unfold nxEval
   q_cases
+
+theorem q_logonFinish (s : Sess) (m : InMsg) (ns : Int) : Q 0 s (logonFinish s m ns).1 := by
+  unfold logonFinish
+  have h : Q 0 s (nxEval (((s.setSentReset false).emit (.armPeer (1200 * s.hb))).emit .onLogon) m ns).1 :=
+    Q.trans0 (by q_peel) (q_nxEval _ m ns)
+  generalize nxEval _ m ns = r at h
+  obtain ⟨x, o⟩ := r
+  cases o with
+  | some r => exact h
+  | none =>
+    dsimp only at h ⊢
+    q_cases
+
+theorem q_logonRefused (s : Sess) (m : InMsg) : Q 0 s (logonRefused s m) := by
+  unfold logonRefused
+  q_cases
+
+theorem q_logonTail (s : Sess) (m : InMsg) (ns : Int) : Q 0 s (logonTail s m ns).1 := by
+  unfold logonTail
+  split
+  · exact q_logonRefused s m
+  · exact (q_logonReply s m _).trans0 (q_logonFinish _ m _)
 
 theorem q_handleLogon (s : Sess) (m : InMsg) : Q 0 s (handleLogon s m).1 := by
   unfold handleLogon
@@ -528,7 +550,7 @@ theorem q_handleLogon (s : Sess) (m : InMsg) : Q 0 s (handleLogon s m).1 := by
       have h4 := h3.trans0 hv2
       cases o2 with
       | some r => exact h4
-      | none => exact (h4.trans0 (q_logonReply s4 m _)).trans0 (q_logonFinish _ m)
+      | none => exact h4.trans0 (q_logonTail s4 m _)
 
 theorem q_inSessionFixMsgIn (s : Sess) (m : InMsg) : Q (K s) s (inSessionFixMsgIn s m).1 := by
   unfold inSessionFixMsgIn
@@ -1021,9 +1043,26 @@ theorem inSessionFixMsgIn_plain (s : Sess) (m : InMsg) (hk : PlainKind m)
 
 /-! ## the gap found on the Logon -/
 
-theorem logonFinish_high (s s' : Sess) (m : InMsg) (n t : Int) (h : logonFinish s m = (s', some (.rej (.tooHigh n t)))) :
+theorem kept_enqueueAndSend (s : Sess) (m : OutMsg) : Kept s (enqueueAndSend s m) := by
+  unfold enqueueAndSend sendQueued
+  simp only []
+  repeat' split
+  all_goals exact ⟨rfl, rfl, rfl⟩
+
+theorem kept_nxEval (s : Sess) (m : InMsg) (ns : Int) : Kept s (nxEval s m ns).1 := by
+  unfold nxEval
+  repeat' split
+  all_goals first | exact kept_enqueueAndSend s _ | exact ⟨rfl, rfl, rfl⟩
+
+theorem logonFinish_high (s s' : Sess) (m : InMsg) (ns n t : Int) (hq : NxNoErr s.cfg)
+    (h : logonFinish s m ns = (s', some (.rej (.tooHigh n t)))) :
     t = s'.store.target ∧ getInt m 34 = .val n ∧ n > t := by
   unfold logonFinish at h
+  have he := nxEval_noErr (((s.setSentReset false).emit (.armPeer (1200 * s.hb))).emit .onLogon) m ns hq
+  generalize nxEval _ m ns = r at h he
+  obtain ⟨x, o⟩ := r
+  simp only [] at he
+  subst he
   simp only [] at h
   split at h
   · rename_i r' hc
@@ -1042,40 +1081,74 @@ theorem logonFinish_high (s s' : Sess) (m : InMsg) (n t : Int) (h : logonFinish 
       · cases hc
   · simp at h
 
+theorem logonTail_high (s s' : Sess) (m : InMsg) (ns n t : Int) (hq : NxNoErr s.cfg)
+    (h : logonTail s m ns = (s', some (.rej (.tooHigh n t)))) :
+    t = s'.store.target ∧ getInt m 34 = .val n ∧ n > t := by
+  unfold logonTail at h
+  split at h
+  · simp at h
+  · exact logonFinish_high _ s' m _ n t (by rw [(q_logonReply s m _).cfg]; exact hq) h
+
 /-- the only way `handleLogon` reports a gap: the Logon was accepted, answered, the session notified, and its number is
-    above the expected one -/
-theorem handleLogon_high (s s' : Sess) (m : InMsg) (n t : Int) (h : handleLogon s m = (s', some (.rej (.tooHigh n t)))) :
+    above the expected one.  `hq`: EnableNextExpectedMsgSeqNum off, or message persistence on — with the option and without
+    persistence a peer's 789 different from our outbound number is reported by the same error, with `n` the peer's 789 and
+    `t` our OUTBOUND number (`handleLogon_high_nx_nopersist` in Props/C04.lean) -/
+theorem handleLogon_high (s s' : Sess) (m : InMsg) (n t : Int) (hq : NxNoErr s.cfg)
+    (h : handleLogon s m = (s', some (.rej (.tooHigh n t)))) :
     t = s'.store.target ∧ getInt m 34 = .val n ∧ n > t := by
   unfold handleLogon at h
   split at h
   · simp at h
-  · simp only [] at h
-    split at h
-    · rename_i s2 r hv
+  · generalize hs1 : (if (!s.cfg.initiator && s.cfg.refreshOnLogon) = true then s.emit Obs.refresh else s) = s1 at h
+    have h1 : Q 0 s s1 := by rw [← hs1]; q_peel
+    simp only [] at h
+    have hv := q_verifyAppImpl s1 m
+    have hn1 := verifyAppImpl_notHigh s1 m
+    generalize verifyAppImpl s1 m = r at hv hn1 h
+    obtain ⟨s2, o⟩ := r
+    simp only [] at hv hn1
+    cases o with
+    | some r =>
       simp only [Prod.mk.injEq, Option.some.injEq, LogonErr.rej.injEq] at h
-      have := verifyAppImpl_notHigh _ m r (by rw [hv])
+      have := hn1 r rfl
       rw [h.2] at this; cases this
-    · split at h
-      · rename_i s4 r hv
+    | none =>
+      simp only [] at h
+      generalize hs3 : (if ((if s2.cfg.initiator = true then false else s2.cfg.resetOnLogon) || logonResetFlag m && !s2.sentReset) = true
+          then dropAndReset s2 else s2) = s3 at h
+      have h3 : Q 0 s s3 := by rw [← hs3]; exact (h1.trans0 hv).trans0 (by q_peel)
+      have hv2 := q_verifySelect s3 m false true false
+      have hn2 := verifySelect_notHigh s3 m true false
+      generalize verifySelect s3 m false true false = r2 at hv2 hn2 h
+      obtain ⟨s4, o2⟩ := r2
+      simp only [] at hv2 hn2
+      cases o2 with
+      | some r =>
         simp only [Prod.mk.injEq, Option.some.injEq, LogonErr.rej.injEq] at h
-        have := verifySelect_notHigh _ m true false r (by rw [hv])
+        have := hn2 r rfl
         rw [h.2] at this; cases this
-      · exact logonFinish_high _ s' m n t h
+      | none =>
+        simp only [] at h
+        exact logonTail_high s4 s' m _ n t (by rw [(h3.trans0 hv2).cfg]; exact hq) h
 
 /-- **Logon-detected gap**: the request for `[T, infinity]` (or the first chunk) is issued and the recovery state starts
     with an empty stash -/
-theorem logonFixMsgIn_high (s s' : Sess) (m : InMsg) (n t : Int) (hk : kindOf m = "A")
+theorem logonFixMsgIn_high (s s' : Sess) (m : InMsg) (n t : Int) (hk : kindOf m = "A") (hq : NxNoErr s.cfg)
     (h : handleLogon s m = (s', some (.rej (.tooHigh n t)))) :
     logonFixMsgIn s m = (sendInReplyTo s' (rrMsg s'.cfg s'.store.target (n - 1)), .resend [] (chunkCur s'.cfg s'.store.target (n - 1)) (n - 1)) := by
-  obtain ⟨rfl, _, _⟩ := handleLogon_high s s' m n t h
+  obtain ⟨rfl, _, _⟩ := handleLogon_high s s' m n t hq h
   unfold logonFixMsgIn
   simp only [hk, bne_self_eq_false, Bool.false_eq_true, if_false, h, sendResendRequest_eq]
 
 /-! the positive direction: a Logon that passes every check with a number above the expected one -/
 
-theorem logonMsg_noReset (s : Sess) : ((logonMsg s false).kind == "A" && (logonMsg s false).f.get? 141 == some "Y") = false := by
-  unfold logonMsg mkOut Fields.get?
-  by_cases h : s.cfg.applVer.isEmpty = true <;> simp [h, List.find?]
+theorem logonMsgX_noReset (s : Sess) (nx : Option Int) :
+    ((logonMsgX s false nx).kind == "A" && (logonMsgX s false nx).f.get? 141 == some "Y") = false := by
+  unfold logonMsgX mkOut Fields.get? nxTag
+  cases nx <;> by_cases h : s.cfg.applVer.isEmpty = true <;> simp [h, List.find?]
+
+theorem logonMsg_noReset (s : Sess) : ((logonMsg s false).kind == "A" && (logonMsg s false).f.get? 141 == some "Y") = false :=
+  logonMsgX_noReset s _
 
 theorem Kept.refl (s : Sess) : Kept s s := ⟨rfl, rfl, rfl⟩
 theorem Kept.trans {a b c : Sess} (h1 : Kept a b) (h2 : Kept b c) : Kept a c :=
@@ -1105,7 +1178,7 @@ theorem kept_sendLogonInReplyTo_noReset (s : Sess) : Kept s (sendLogonInReplyTo 
   kept_dropAndSend_noReset s _ rfl (logonMsg_noReset s)
 
 theorem kept_sendLogonRe_noReset (s : Sess) (m : InMsg) : Kept s (sendLogonRe s false m) :=
-  kept_dropAndSend_noReset s _ rfl (logonMsg_noReset s)
+  kept_dropAndSend_noReset s _ rfl (logonMsgX_noReset s _)
 
 theorem kept_logonReply_noReset (s : Sess) (m : InMsg) : Kept s (logonReply s m false) := by
   unfold logonReply
@@ -1147,7 +1220,8 @@ theorem handleLogon_gap (s : Sess) (m : InMsg) (n : Int)
     (hr1 : (if s.cfg.initiator then false else s.cfg.resetOnLogon) = false) (hr2 : logonResetFlag m = false)
     (hb : checkBeginString s m = none) (hc : checkCompID s m = none)
     (ht : (curResend s).isSome = true ∨ checkSendingTime s m = none)
-    (hn : getInt m 34 = .val n) (hgt : n > s.store.target) :
+    (hn : getInt m 34 = .val n) (hgt : n > s.store.target)
+    (hnx : nxRefuses s m = false) (hq : NxNoErr s.cfg) :
     ∃ s', handleLogon s m = (s', some (.rej (.tooHigh n s.store.target))) ∧ Kept s s' := by
   unfold handleLogon
   simp only [hfixt, Bool.false_eq_true, if_false]
@@ -1164,12 +1238,27 @@ theorem handleLogon_gap (s : Sess) (m : InMsg) (n : Int)
   obtain ⟨c1, c2, c3, c4, c5, c6⟩ := checks_congr k2 m
   rw [verifySelect_logon_pass _ m n (by rw [c1]; exact hb) (by rw [c2]; exact hc) (by rw [c6, c3]; exact ht) hn
     (by rw [k2.target]; omega)]
-  simp only [hr2]
+  have hst : (s1.emit (cbObs s1 m)).store = s.store := by rw [← hs1]; split <;> rfl
+  have hnr : logonRefuses (s1.emit (cbObs s1 m)) m false = false := by
+    have : nxRefuses (s1.emit (cbObs s1 m)) m = false := by
+      unfold nxRefuses at hnx ⊢; rw [k2.cfg, hst]; exact hnx
+    unfold logonRefuses; rw [this, Bool.and_false]
+  unfold logonTail
+  simp only [hr2, hnr, Bool.false_eq_true, if_false]
   have k3 := k2.trans (kept_logonReply_noReset (s1.emit (cbObs s1 m)) m)
   generalize logonReply (s1.emit (cbObs s1 m)) m false = s5 at k3
+  generalize s.store.sender = ns
   unfold logonFinish
+  have k4 : Kept s (nxEval (((s5.setSentReset false).emit (Obs.armPeer (1200 * s5.hb))).emit Obs.onLogon) m ns).1 :=
+    (k3.trans (Kept.mk (s' := ((s5.setSentReset false).emit (Obs.armPeer (1200 * s5.hb))).emit Obs.onLogon) rfl rfl rfl)).trans
+      (kept_nxEval _ m ns)
+  have he := nxEval_noErr (((s5.setSentReset false).emit (Obs.armPeer (1200 * s5.hb))).emit Obs.onLogon) m ns
+    (by show NxNoErr s5.cfg; rw [k3.cfg]; exact hq)
+  generalize nxEval _ m ns = r at k4 he
+  obtain ⟨x, o⟩ := r
+  simp only [] at he k4
+  subst he
   simp only []
-  have k4 : Kept s (((s5.setSentReset false).emit (Obs.armPeer (1200 * s5.hb))).emit Obs.onLogon) := k3.trans ⟨rfl, rfl, rfl⟩
   rw [checkTooHigh_gt _ m n hn (by rw [k4.target]; exact hgt)]
   exact ⟨_, by rw [k4.target], k4⟩
 
